@@ -1,0 +1,22 @@
+//go:build verif
+
+package primev
+
+import (
+	"github.com/jackc/pgx/v4/pgxpool"
+
+	"github.com/shutter-network/rolling-shutter/rolling-shutter/keyper/epochkghandler"
+	"github.com/shutter-network/rolling-shutter/rolling-shutter/medley/broker"
+	"github.com/shutter-network/rolling-shutter/rolling-shutter/p2p"
+)
+
+// VerifGossipvalCommitmentHandler returns the commitment handler exactly as Keyper.Start
+// registers it (all its fields are unexported). Add-only accessor for the verification harness
+// (family gossipval, property C05).
+func VerifGossipvalCommitmentHandler(
+	config *Config,
+	trigger chan *broker.Event[*epochkghandler.DecryptionTrigger],
+	dbpool *pgxpool.Pool,
+) p2p.MessageHandler {
+	return &PrimevCommitmentHandler{config: config, decryptionTriggerChannel: trigger, dbpool: dbpool}
+}
